@@ -72,7 +72,8 @@ def run(out, tier, rng, work):
                 'against an independent reference peer that draws its free choices from the standard\'s envelope: CTS windows 1..min(limit, '
                 'remaining), 0..3 holds spaced < 0.5 s, reply latency 0..150 ms, BAM spacing 50..190 ms (FD 10..190 ms), RTS limit 1..255; '
                 'oracle reads the bus: decode by the reference layouts / window and pacing discipline / grants; J1939-21 handler logs '
-                'replayed on the Coq model; non-trivial = the transfer ran (TP frames on the bus)')
+                'replayed on the Coq model; non-trivial = the transfer ran (TP frames on the bus)'
+                ' Every fourth scenario: FD with the last segment on both sides of every CAN-FD length step; every fourth: J1939-21 responder with sizes at multiples of 7 and a partial last window; cyclic application timers in 30 %.')
     out.assumptions = ['A1-A6 of DESIGN.md section 3', 'J1939-22 frames are checked against refpeer layouts by the oracle; the Coq wire theorems cover J1939-21 (FD builders: see C02)']
     C.std_proof_stage(out, 'C09', FILES)
     n = 150 if tier == 'quick' else 3000
